@@ -408,7 +408,7 @@ pub fn sets(ctx: &Ctx) -> Vec<CaseSet> {
     let max1 = ctx.size(200, 2000) as usize;
     out.push(CaseSet::new(
         "agreement",
-        ctx.size(4_000, 150_000),
+        ctx.size(20_000, 750_000),
         Box::new(move |rep, rng, _| {
             let (input, q, tag) = gen_input(rng, &tb1, &cfg1, max1);
             rep.count(&format!("inputs:{}", tag));
@@ -421,7 +421,7 @@ pub fn sets(ctx: &Ctx) -> Vec<CaseSet> {
     let max2 = ctx.size(64, 512) as usize;
     out.push(CaseSet::new(
         "fault-every-offset",
-        ctx.size(1_500, 60_000),
+        ctx.size(7_500, 300_000),
         Box::new(move |rep, rng, _| {
             let (input, q, tag) = gen_input(rng, &tb2, &cfg2, max2);
             rep.count(&format!("fault-inputs:{}", tag));
